@@ -384,7 +384,73 @@ func c11(c *Ctx) {
 	r.Floor("C11.R1", 4)
 	r.Floor("C11.R2", 3)
 	r.Floor("C11.R3", 3)
+	r.Floor("C11.R8", 6)
+	c11Unlocks(c, p)
+	if k2, err := c.K2(); err == nil {
+		r.SetConfig("linux/arm64")
+		c11Unlocks(c, k2)
+		r.SetConfig("linux/amd64")
+	}
 	c11Arch(c, p)
+}
+
+// c11Unlocks: C11.R8 — a package-level lock is released (directly, by a deferred call or through an unlock wrapper) only
+// where it is definitely held: at the release itself, or at every call site of the function that releases it.
+func c11Unlocks(c *Ctx, p *Prog) {
+	r := c.R
+	sums := p.lockSummaries()
+	held := map[*ssa.Function]map[ssa.Instruction]map[string]bool{}
+	for _, f := range p.Funcs {
+		if !strings.HasPrefix(pkgPathOf(f), Mod) || f.Blocks == nil {
+			continue
+		}
+		if _, isWrapper := sums[f]; isWrapper {
+			continue
+		}
+		var h map[ssa.Instruction]map[string]bool
+		eachInstr(f, func(i ssa.Instruction) {
+			rel := map[string]bool{}
+			if k, acq, _, ok := lockOfCall(i); ok && !acq {
+				rel[k] = true
+			}
+			if cc := callCommon(i); cc != nil {
+				if s, ok := sums[staticCallee(cc)]; ok {
+					for k := range s.rel {
+						rel[k] = true
+					}
+				}
+			}
+			if len(rel) == 0 {
+				return
+			}
+			if h == nil {
+				h = p.heldAt(f, sums)
+				held[f] = h
+			}
+			for k := range rel {
+				ok := h[i][k]
+				why := ""
+				if !ok {
+					// released on behalf of callers: an internal helper every caller of which holds the lock
+					nCallers := 0
+					for _, bs := range p.modEdges() {
+						for _, b := range bs {
+							if b == f {
+								nCallers++
+							}
+						}
+					}
+					if nCallers > 0 && (f.Object() == nil || !f.Object().Exported()) {
+						ok, why = p.callersHold(f, k, held, sums, map[*ssa.Function]bool{}, nil)
+					} else {
+						why = "not acquired in " + shortName(f)
+					}
+				}
+				r.Check(ok, "C11.R8", "release of "+shortLock(k)+" in "+shortName(f)+" happens with the lock held", p.Pos(posOf(i)), "held at the release (or by every caller)",
+					"a lock is released on a path where it was not acquired ("+why+"): the write to the text segment runs unprotected and the unlock of an unlocked mutex is a fatal error")
+			}
+		})
+	}
 }
 
 func c11Arch(c *Ctx, p *Prog) {
